@@ -45,6 +45,7 @@ enum FaultKind { FK_NONE = 0, FK_THROW = 1 };
 
 constexpr int OP_ARGS = 10;
 
+struct NestedOp;
 struct Op {
   int kind = OP_NOP;
   int a[OP_ARGS] = {0, 0, 0, 0, 0, 0, 0, 0, 0, 0};
@@ -52,8 +53,21 @@ struct Op {
   int fault_at = 0;
   int stall = 0;         // Mode T: scheduler decisions this task is unschedulable for at its first clause point
   // operations executed re-entrantly from inside the action with index .first of the handling expectation
-  std::vector<std::pair<int, Op>> nested;
+  std::vector<NestedOp> nested;
+  Op();
+  Op(const Op&);
+  Op(Op&&) noexcept;
+  Op& operator=(const Op&);
+  Op& operator=(Op&&) noexcept;
+  ~Op();
 };
+struct NestedOp { int first; Op second; };
+inline Op::Op() = default;
+inline Op::Op(const Op&) = default;
+inline Op::Op(Op&&) noexcept = default;
+inline Op& Op::operator=(const Op&) = default;
+inline Op& Op::operator=(Op&&) noexcept = default;
+inline Op::~Op() = default;
 
 // field meanings (selectors are taken modulo the live population of the kind):
 //  new_mock        a0 kind (0 = MockT<false>, 1 = MockT<true>, 2 = deathwatched<MockT<false>>)
